@@ -136,6 +136,9 @@ class Number(Element):
         )
 
     def set_value_from_message(self, msg):
+        if msg.value is None:
+            # an element without text carries no number that could be applied
+            raise ValueError(f"No value for number element {self.name}")
         self.set_value(values.str_to_num(msg.value, self._definition.format))
 
 
